@@ -2804,6 +2804,21 @@ pub fn gen_c20(rng: &mut Rng, tier: &str, out: &mut Out) {
         sig_queries(out, rng, true, &u, 4);
     }
     many_class_sig_ops(out, if th { 2100 } else { 1100 });
+    // the mapping itself is shared too: its summary / validity answers (sequences of valued and
+    // value-less headers, orphan members before the first class)
+    for k in ["compiler", "compiler_version", "min_api"] {
+        for (a, b) in [("24", ""), ("", "24"), ("24", "25"), ("R8", "")] {
+            for bare_second in [false, true] {
+                let second = if bare_second { format!("# {}\n", k) } else { format!("# {}: {}\n", k, b) };
+                let t = format!("# {}: {}\n{}o.A -> a:\n    1:1:void m() -> b\n# {}\n", k, a, second, k);
+                out.d(format!("META {}", hx(t.as_bytes())));
+                out.count("header_sequences");
+            }
+        }
+    }
+    for t in ["    1:1:void run() -> a\no.Foo -> b:\n", "    1:1:void run() -> a\no.Foo -> b:\n    int f -> c\n", "    int f -> c\n", "o.Foo -> b:\n"] {
+        out.d(format!("META {}", hx(t.as_bytes())));
+    }
 }
 
 pub fn generate(prop: &str, tier: &str, seed: u64) -> Option<Out> {
